@@ -229,6 +229,7 @@ type sysRun struct {
 	inRetry       bool
 
 	// exhaustive fault placement: the k-th faultable call of the scheduler (before quiescence) gets the planned fault
+	userHookFaults bool // exploration only (-user-hook-faults): the hook's nested GetNext may fail during user mutations too
 	planned bool
 	plan    map[int]int // call number -> 1 error without effect, 2 error after effect, 3 failure of the hook's nested GetNext
 	callNo  int
@@ -538,6 +539,14 @@ func (s *sysRun) userOp() {
 	}
 	ctx := context.Background()
 	nowT := cq.Time(s.now)
+	// the nested GetNext of the hook's re-arming may fail during a user's mutation as well (the mutation itself succeeds)
+	hf := s.userHookFaults && s.faultsOn && !s.planned && s.r.Intn(8) == 0
+	if hf {
+		s.proxy.faulty.failNext = true
+		s.stats["fault:hook-getnext-in-user-op"]++
+		defer func() { s.proxy.faulty.failNext = false }()
+	}
+	hft := cq.Bool(hf)
 	switch x := s.r.Intn(10); {
 	case x < 5 || len(s.known) == 0:
 		var p def.TaskUpdateParam
@@ -556,7 +565,7 @@ func (s *sysRun) userOp() {
 			s.workOf[t.Id] = w
 		}
 		s.stats["user:add"]++
-		s.log("LUser (HAdd false " + nowT + " " + cq.Str(fresh) + " " + cq.UParam(p) + ") " + taskRes(t, err))
+		s.log("LUser (HAdd " + hft + " " + nowT + " " + cq.Str(fresh) + " " + cq.UParam(p) + ") " + taskRes(t, err))
 	case x < 8:
 		id := s.pickId()
 		var p def.TaskUpdateParam
@@ -569,12 +578,12 @@ func (s *sysRun) userOp() {
 		}
 		err := s.obs.UpdateById(ctx, id, p)
 		s.stats["user:update"]++
-		s.log("LUser (HUpdate false " + nowT + " " + cq.Str(id) + " " + cq.UParam(p) + ") " + cq.Err(err, isCtxErr))
+		s.log("LUser (HUpdate " + hft + " " + nowT + " " + cq.Str(id) + " " + cq.UParam(p) + ") " + cq.Err(err, isCtxErr))
 	default:
 		id := s.pickId()
 		err := s.obs.Cancel(ctx, id)
 		s.stats["user:cancel"]++
-		s.log("LUser (HCancel false " + nowT + " " + cq.Str(id) + ") " + cq.Err(err, isCtxErr))
+		s.log("LUser (HCancel " + hft + " " + nowT + " " + cq.Str(id) + ") " + cq.Err(err, isCtxErr))
 	}
 }
 
@@ -1027,6 +1036,7 @@ func sysMain(args []string) {
 	volatile := fs.Bool("volatile", false, "second configuration: Scheduler over NewVolatileTaskRepo(CronStore)")
 	out := fs.String("out", "", "output .v")
 	statsOut := fs.String("stats", "", "stats json")
+	userHookFaults := fs.Bool("user-hook-faults", false, "exploration (not used by registered suites): with -faults, the hook's nested GetNext may also fail during the user's own mutations; see DESIGN.md §6, observation O3")
 	exhaustive := fs.Int("exhaustive", 0, "number of base scenarios; every placement of one fault (error-without-effect, error-after-effect, hook GetNext failure) over the scheduler's calls of each is run (ignores -n)")
 	pairs := fs.Bool("pairs", false, "with -exhaustive: also every placement of two faults")
 	_ = fs.Parse(args)
@@ -1093,6 +1103,7 @@ func sysMain(args []string) {
 			s = newVSysRun(r, stats, *scribble)
 		} else {
 			s = newSysRun(r, stats, *faults)
+			s.userHookFaults = *userHookFaults
 		}
 		if s.failed == "" && !s.ended {
 			s.run(*length)
